@@ -1170,6 +1170,35 @@ def unit_compare(c, model, impl):
     return None
 
 
+LPREAMBLE = ("From SV Require Import C03.BottomUp C03.LineGeo.\nFrom Coq Require Import List ZArith QArith.\n"
+             "Import ListNotations.\nOpen Scope Q_scope.\n")
+
+
+def line_pts_compare(c, model, isubs):
+    """model: [[(x, y)...], [t_i...]] from LineGeo.line_pts / lerp_t; isubs: make_line_subs (n, 2, 3).
+    Returns the number of points compared exactly, or a message."""
+    mpts, mts = model
+    n, ps = c["n"], c["ps"]
+    if len(mpts) != n or len(mts) != n or len(isubs) != n:
+        return f"number of line points: model {len(mpts)}/{len(mts)} impl {len(isubs)} want {n}"
+    cnt = 0
+    for i in range(n):
+        t = F(i, n - 1) if n > 1 else F(0)
+        if jfrac(mts[i]) != t:
+            return f"point {i}: lerp_t {jfrac(mts[i])} want {t}"
+        X = c["src"][0] + (c["dst"][0] - c["src"][0]) * t
+        Y = c["src"][1] + (c["dst"][1] - c["src"][1]) * t
+        (r0, c0, _), _ = isubs[i]
+        mx, my = jfrac(mpts[i][0]), jfrac(mpts[i][1])
+        for nm, q, got, mod in (("y", Y / ps, r0 * ps, my), ("x", X / ps, c0 * ps, mx)):
+            if (q - math.floor(q)) == F(1, 2):
+                continue          # float32 linspace decides exact .5 boundaries (see unit_compare)
+            if F(got) != mod:
+                return f"point {i}: {nm} impl {got} model {mod} (value/stride = {float(q)})"
+            cnt += 1
+    return cnt
+
+
 def layout_check(im: Impl, rng, model_pairs, h, w, E):
     """(i) the model's writer/reader offsets agree and are what torch's reshape/permute do;
     (ii) the real generate_pafs puts edge k's x/y component of cell (i, j) [= position
@@ -1582,6 +1611,30 @@ def check(run: core.Run) -> int:
                                     json.dumps({k: str(v) for k, v in c.items() if k != "paf"})[:400])
     run.obligation("correspondence: line_subs / score_parts / score_geb (Coq) == make_line_subs / get_paf_lines / "
                    "score_paf_lines (/repo) on every unit case", u_bad == 0, f"{u_bad} disagreements")
+    # ---- 1b. LineGeo.v: the sampler as POSITIONS (line_pts, lerp_t) == make_line_subs * stride, exact ------
+    n_pts = 600 if thorough else 150
+    pcases = ucases[:n_pts]
+    pfn = ("fun c : Q * Q * Q * Q * Z * Z * Z * Z * nat => let '(sx, sy, dx, dy, k, ps, h, w, n) := c in "
+           "RL [RL (map (fun p => RL [RQ (fst p); RQ (snd p)]) (line_pts sx sy dx dy k ps h w n)); "
+           "RL (map (fun i => RQ (lerp_t n i)) (seq 0 n))]")
+    pterms = [f"({cqq(c['src'][0])}, {cqq(c['src'][1])}, {cqq(c['dst'][0])}, {cqq(c['dst'][1])}, {core.cz(c['k'])}, "
+              f"{core.cz(c['ps'])}, {core.cz(c['h'])}, {core.cz(c['w'])}, {c['n']}%nat)" for c in pcases]
+    pmodel = core.coq_eval_sharded(LPREAMBLE, pterms, pfn, "rres", shard=150, jobs=4)
+    p_bad, p_pts = [], 0
+    for c, m in zip(pcases, pmodel):
+        try:
+            d = line_pts_compare(c, m, unit_impl(im, c)[0])
+        except Exception as e:
+            d = f"implementation raised {type(e).__name__}: {e}"
+        if isinstance(d, int):
+            p_pts += d
+        else:
+            p_bad.append(d + " ; case " + json.dumps({k: str(v) for k, v in c.items() if k != "paf"})[:300])
+    run.obligation("correspondence: line_pts / lerp_t (Coq, LineGeo.v: the cells of the geometric premise) == "
+                   "(col, row) * stride of make_line_subs (/repo) and i/(n-1), exact, on generated edges",
+                   not p_bad and p_pts >= n_pts, f"{len(p_bad)} disagreements, {p_pts} points; " + "; ".join(p_bad[:2]))
+    if p_bad:
+        run.proof_broken.append("line_pts correspondence: " + p_bad[0][:600])
     l_bad = [layout_check(im, rng, m, h, w, E) for (h, w, E), m in zip(layouts, model[n_unit:])]
     l_bad = [x for x in l_bad if x]
     run.obligation("correspondence: writer_offset == reader_offset == torch reshape/permute layout", not l_bad,
